@@ -228,6 +228,12 @@ let handle (x : sexp) : (string * string) list =
       end
     end;
     (* --- specification on the implementation's verdict --- *)
+    (* the specification takes a variable's default to be valid (operation validation's job): a generated
+       default that is not a value of its type is a generator error, not a finding *)
+    List.iter (fun vd -> match vd.vd_default with
+        | Some dv when not (coercible weak sch vd.vd_type false (Some (value_to_json dv))) ->
+          add "error" ("generator: the default of $" ^ s_of vd.vd_name ^ " is not a value of its type")
+        | _ -> ()) vds;
     let spec = coercible_all std sch vds j in
     (match stage with
      | "panic" ->
